@@ -296,3 +296,23 @@ def m_opaque_into_iter(tr, c):
 
 def install(tr):
     pass
+
+
+def _info_val_loc(tr, v) -> Loc:
+    return v.loc if isinstance(v, VLoc) else tr.deref(v)
+
+
+@model("AccountInfo::without_code", doc="revm-state: the same account info with code = None (balance, nonce, code_hash kept)")
+def m_info_without_code(tr, c):
+    d = c.dest()
+    tr.copy(d, _info_val_loc(tr, c.args[0]))
+    code = d.node.f("code")
+    if code.kind == "enum":
+        tr.emit(f"{tr.lv(Loc(code.discr, d.idxs))} = {code.vindex('None')};")
+
+
+@model("AccountInfo::with_balance", doc="revm-state: the same account info with the balance replaced")
+def m_info_with_balance(tr, c):
+    d = c.dest()
+    tr.copy(d, _info_val_loc(tr, c.args[0]))
+    tr.store(Loc(d.node.f("balance"), d.idxs), c.args[1])
